@@ -218,7 +218,7 @@ theorem nr_step (st : St) (e : Ev) (h : NoResidue st) : NoResidue (step st e) :=
     simp only [step]
     split
     · apply nr_settle
-      exact nr_congr st _ _ (alive_toAcked (fun r => r.phase == Phase.waitAck)) rfl (fun l hl => hl) h
+      exact nr_congr st _ _ (alive_toAcked (fun r => r.phase == Phase.waitAck && r.gen == st.gen)) rfl (fun l hl => hl) h
     · exact nr_settle _ _ h0
   | rxRsp key =>
     simp only [step]
@@ -273,6 +273,11 @@ theorem nr_step (st : St) (e : Ev) (h : NoResidue st) : NoResidue (step st e) :=
     · exact nr_same st _ rfl (fun l hl => hl) h
     · exact nr_same st _ rfl (fun l hl => hl) h
   | setReset b => exact h0
+  | connect =>
+    simp only [step]
+    split
+    · exact h0
+    · exact nr_same st _ rfl (fun l hl => hl) h
 
 theorem nr_init : NoResidue {} := fun l hl => by simp at hl
 
@@ -779,17 +784,17 @@ theorem inv2_runReq (fuel : Nat) (st : St) (i : Nat) (h : Inv2 st) : Inv2 (runRe
           obtain ⟨st', ok⟩ := a
           simp only [] at hok hx hg' ⊢
           simp only [hok, Bool.not_true, Bool.false_eq_true, if_false]
-          have hph : ∀ (p : Phase) (d : Nat), PhaseHold { setHold r .T true with phase := p, deadline := d } := by
-            intro p d
+          have hph : ∀ (p : Phase) (d g : Nat), PhaseHold { setHold r .T true with phase := p, deadline := d, gen := g } := by
+            intro p d g
             refine ⟨fun _ => by simpa [setHold] using hM, fun _ => by simp [setHold], fun hbl _ => ?_⟩
             have := hPH.2.2 hbl (by rw [hp]; rfl)
             simpa [setHold] using this
           split
           · have hxe : Inv2X (emit st' (.write i r.frag st'.pack r.nfrags)) i := x_congr st' _ i rfl rfl rfl rfl hx
-            exact inv2_close _ i _ (setHold r .T true) hxe hg' (by intro x; rfl) (by intro l hl; exact hl) (hph _ _)
+            exact inv2_close _ i _ (setHold r .T true) hxe hg' (by intro x; rfl) (by intro l hl; exact hl) (hph _ _ _)
           · apply ih
             have := inv2_close st' i (fun r => { r with phase := Phase.acked }) (setHold r .T true) hx hg' (by intro x; rfl)
-              (by intro l hl; exact hl) (hph Phase.acked (setHold r .T true).deadline)
+              (by intro l hl; exact hl) (hph Phase.acked (setHold r .T true).deadline (setHold r .T true).gen)
             exact this
       | acked =>
         simp only []
@@ -908,9 +913,9 @@ theorem inv2_step (st : St) (e : Ev) (h : Inv2 st) : Inv2 (step st e) := by
     simp only [step]
     split
     · apply inv2_settle
-      exact inv2_map st _ (fun r => if (r.phase == Phase.waitAck) = true then { r with phase := Phase.acked } else r) h rfl rfl rfl rfl
+      exact inv2_map st _ (fun r => if (r.phase == Phase.waitAck && r.gen == st.gen) = true then { r with phase := Phase.acked } else r) h rfl rfl rfl rfl
         (fun r => by split <;> rfl) (fun r l => by split <;> (cases l <;> rfl))
-        (phaseHold_toAcked (fun r => r.phase == Phase.waitAck) (fun r hc => by simpa using hc))
+        (phaseHold_toAcked (fun r => r.phase == Phase.waitAck && r.gen == st.gen) (fun r hc => by simp at hc; exact hc.1))
     · exact inv2_settle _ _ h0
   | rxRsp key =>
     simp only [step]
@@ -971,6 +976,11 @@ theorem inv2_step (st : St) (e : Ev) (h : Inv2 st) : Inv2 (step st e) := by
     · exact inv2_congr st _ rfl rfl rfl rfl h
     · exact inv2_congr st _ rfl rfl rfl rfl h
   | setReset b => exact inv2_congr st _ rfl rfl rfl rfl h
+  | connect =>
+    simp only [step]
+    split
+    · exact h0
+    · exact inv2_congr st _ rfl rfl rfl rfl h
 
 theorem inv2_init : Inv2 {} := ⟨by simp, fun r hr => by simp at hr⟩
 
@@ -999,32 +1009,33 @@ structure Frame (st st' : St) : Prop where
   resetting : st'.resetting = st.resetting
   pack : st'.pack = st.pack
   now : st'.now = st.now
+  gen : st'.gen = st.gen
   listeners : ∀ l ∈ st'.listeners, l ∈ st.listeners
   out : ∃ extra, st'.out = st.out ++ extra ∧ ∀ o ∈ extra, isWD o = true
 
-theorem Frame.refl (st : St) : Frame st st := ⟨rfl, rfl, rfl, rfl, rfl, fun _ h => h, [], by simp, by simp⟩
+theorem Frame.refl (st : St) : Frame st st := ⟨rfl, rfl, rfl, rfl, rfl, rfl, fun _ h => h, [], by simp, by simp⟩
 
 theorem Frame.trans {a b c : St} (h1 : Frame a b) (h2 : Frame b c) : Frame a c := by
   obtain ⟨e1, he1, hw1⟩ := h1.out
   obtain ⟨e2, he2, hw2⟩ := h2.out
   exact ⟨h2.isOpen.trans h1.isOpen, h2.transport.trans h1.transport, h2.resetting.trans h1.resetting,
-    h2.pack.trans h1.pack, h2.now.trans h1.now, fun l hl => h1.listeners l (h2.listeners l hl),
+    h2.pack.trans h1.pack, h2.now.trans h1.now, h2.gen.trans h1.gen, fun l hl => h1.listeners l (h2.listeners l hl),
     e1 ++ e2, by rw [he2, he1, List.append_assoc], fun o ho => by
       rcases List.mem_append.mp ho with h | h
       · exact hw1 o h
       · exact hw2 o h⟩
 
 theorem frame_updReq (st : St) (i : Nat) (f : Req → Req) : Frame st (updReq st i f) :=
-  ⟨rfl, rfl, rfl, rfl, rfl, fun _ h => h, [], by simp [updReq], by simp⟩
+  ⟨rfl, rfl, rfl, rfl, rfl, rfl, fun _ h => h, [], by simp [updReq], by simp⟩
 
 theorem frame_setQueue (st : St) (l : Lock) (q : List Nat) : Frame st (setQueue st l q) := by
-  cases l <;> exact ⟨rfl, rfl, rfl, rfl, rfl, fun _ h => h, [], by simp [setQueue], by simp⟩
+  cases l <;> exact ⟨rfl, rfl, rfl, rfl, rfl, rfl, fun _ h => h, [], by simp [setQueue], by simp⟩
 
 theorem frame_ready (st : St) (rd : List Nat) : Frame st { st with ready := rd } :=
-  ⟨rfl, rfl, rfl, rfl, rfl, fun _ h => h, [], by simp, by simp⟩
+  ⟨rfl, rfl, rfl, rfl, rfl, rfl, fun _ h => h, [], by simp, by simp⟩
 
 theorem frame_emit (st : St) (o : Out) (ho : isWD o = true) : Frame st (emit st o) :=
-  ⟨rfl, rfl, rfl, rfl, rfl, fun _ h => h, [o], rfl, by simpa using ho⟩
+  ⟨rfl, rfl, rfl, rfl, rfl, rfl, fun _ h => h, [o], rfl, by simpa using ho⟩
 
 theorem frame_acquire (st : St) (l : Lock) (i : Nat) : Frame st (acquire st l i).1 := by
   unfold acquire
@@ -1043,7 +1054,7 @@ theorem frame_release (st : St) (l : Lock) (i : Nat) : Frame st (release st l i)
   · exact this
 
 theorem frame_finish (st : St) (i : Nat) (o : Outcome) : Frame st (finish st i o) :=
-  ⟨rfl, rfl, rfl, rfl, rfl, fun l hl => by
+  ⟨rfl, rfl, rfl, rfl, rfl, rfl, fun l hl => by
       simp only [finish, emit, List.mem_filter] at hl; simpa [updReq] using hl.1,
     [.done i o], by simp [finish, emit, updReq], by simp [isWD]⟩
 
